@@ -1,4 +1,5 @@
 import itertools
+import re
 
 from vlib import Prop
 from props.c08 import HOK
@@ -29,6 +30,7 @@ def endings(i):
         "alive-resolver": [],
         "alive-stream": ["s%d:%s" % (i, HOK), q + ".res", q + ".sr:200:-", q + ".fi"],
         "alive-one-half": ["s%d:%s" % (i, HOK), q + ".res", q + ".sp", q + ".dr"],
+        "alive-after-reset": ["s%d:%s" % (i, HOK), q + ".res", "r%d:5" % i, q + ".rd"],   # R-09: reset by the peer, handle still held
         # connection errors: accept reports the error instead
         "qpack-garbage": ["s%d:%s" % (i, HQPACK), q + ".res"],
         "data-before-headers": ["s%d:%s" % (i, FDATA), q + ".res"],
@@ -39,7 +41,7 @@ def endings(i):
 ENDED = ["finished", "resolver-dropped", "killed-while-resolving", "fin-before-headers", "fin-while-resolving",
          "reset-before-headers", "reset-while-resolving", "reset-after-headers", "malformed-headers",
          "split-recv-first", "split-send-first", "split-killed"]
-ALIVE = ["alive-resolver", "alive-stream", "alive-one-half"]
+ALIVE = ["alive-resolver", "alive-stream", "alive-one-half", "alive-after-reset"]
 CONNERR = ["qpack-garbage", "data-before-headers", "truncated-frame"]
 
 
@@ -72,11 +74,18 @@ class C09(Prop):
                   "over SimQuic with a scripted executor that polls only woken tasks (a lost wake-up or a missing end notification "
                   "shows as `pending` at quiescence); tokio's unbounded mpsc is assumed FIFO and to wake the receiver's registered "
                   "waker on send; every way of ending a request is one or more `dropHandle` events (Drv/C09.lean maps the scenario "
-                  "ops to them); no local shutdown() in this model (the reject path is C08's)")
-    rule = ("cases: 0..2 requests x all pairs of the 18 endings (12 that end the request, 3 that keep it alive, 3 connection "
+                  "ops to them); no local shutdown() in this model: the Ok(None) of the reject path is C08's acceptLoop "
+                  "(C08_accept_none_only_when_drained), its completion test on this model's states is C09_completion_test_never_early")
+    rule = ("cases: 0..2 requests x all pairs of the 19 endings (12 that end the request, 4 that keep it alive although it is "
+            "finished / reset by the peer / half dropped (R-09: ended = every handle dropped), 3 connection "
             "errors) run one after the other, peer GOAWAY at every position, accept loop conn.AL or single conn.A calls; "
             "3..4 requests (thorough: up to 6) with random endings, random interleavings of the per-request ops, GOAWAY at "
-            "sampled positions, executor seeds 0..3; non-trivial = accept returned at least one request and the line contains a GOAWAY")
+            "sampled positions, executor seeds 0..3; many requests (both tiers; the sentence is universal, the quantifier's "
+            "0..4 is not a bound of the mechanism): 129, 130, 200 and 300 requests, each handed out by its own accept() call, "
+            "left as resolver / answered and finished / reset by the peer after its headers, then EVERY handle dropped while no "
+            "accept() is outstanding (i.e. between two polls of accept), peer GOAWAY before or after the drops, one more "
+            "accept(): it must answer None (a bounded or lossy request-end queue shows as pend=1); "
+            "non-trivial = accept returned at least one request and the line contains a GOAWAY")
     trusted = ["tokio::sync::mpsc unbounded channel: FIFO, send wakes the receiver's registered waker"]
     assumptions = ["the transport never hands out the same stream ID twice", "API calls are awaited to completion (R-14)",
                    "the control stream has write credit for the final GOAWAY of accept()"]
@@ -100,6 +109,23 @@ class C09(Prop):
         cfg = "g0" if seed == 0 else "g0,seed=%d" % seed
         return " ".join(["drain", "server", cfg, "o2", "s2:000400"] + ops)
 
+    def many(self, n, goaway="after", ending="resolver-dropped", seed=0):
+        """n requests accepted one by one, then all their handles go while accept() is not being polled"""
+        ops, drops = [], []
+        for k in range(n):
+            i = 4 * k
+            ops += ["o%d" % i, "conn.A"]
+            e = endings(i)[ending]
+            ops += e[:-1]          # everything but the final drop of the (last) handle
+            drops.append(e[-1])
+        ops += ([GOAWAY] + drops) if goaway == "before" else (drops + [GOAWAY])
+        return self.line(ops + ["conn.A"], seed=seed)
+
+    def many_cases(self):
+        return [self.many(130), self.many(300),
+                self.many(129, goaway="before"), self.many(130, goaway="before", seed=2),
+                self.many(130, ending="finished", seed=1), self.many(200, ending="reset-after-headers", seed=3)]
+
     def cases(self, tier, rng):
         big = tier == "thorough"
         L, seen = [], set()
@@ -116,6 +142,12 @@ class C09(Prop):
         add(self.line(["o0", "conn.A", "q0.res", "conn.A", GOAWAY, "q0.kill?"]))
         add(self.line(["conn.AL", GOAWAY]))
         add(self.line([GOAWAY, "conn.A", "conn.A"]))
+
+        # many requests (the sentence is universal, the model unbounded): n requests all handed out by single accept()
+        # calls, every handle dropped while no accept() is outstanding (= between two polls of accept), peer GOAWAY,
+        # one more accept(): it must answer None.  A bounded or lossy request-end queue shows as pend=1.
+        for l in self.many_cases():
+            add(l)
 
         all_names = ENDED + ALIVE + CONNERR
 
@@ -185,8 +217,42 @@ class C09(Prop):
     def shrink_candidates(self, line):
         w = line.split()
         out = []
-        for i in range(5, len(w)):
-            out.append(" ".join(w[:i] + w[i + 1:]))
+        # whole requests at once (a request = its open, its accept() when it follows directly, everything on its stream
+        # and of its tasks).  Long "many requests" lines come down to the boundary count by halving; there only a few
+        # removals are tried (every process start costs ~0.1 s), so the result is small but not token-minimal.
+        ids = [int(t[1:]) for t in w[5:] if re.fullmatch(r"o\d+", t)]
+
+        def without(gone):
+            gone = set(gone)
+            keep, skip_accept = [], False
+            for t in w[5:]:
+                if skip_accept and t == "conn.A":
+                    skip_accept = False
+                    continue
+                skip_accept = False
+                m = re.fullmatch(r"(?:[of](\d+)|[sr](\d+):.*|q(\d+)s?\..*)", t)
+                i = int(next(g for g in m.groups() if g is not None)) if m else None
+                if i is not None and i in gone:
+                    skip_accept = t.startswith("o")
+                    continue
+                keep.append(t)
+            return " ".join(w[:5] + keep)
+
+        n = len(ids)
+        if n > 16:
+            for parts in (2, 4, 8, 16):
+                size = n // parts
+                for k in range(parts):
+                    out.append(without(ids[k * size:(k + 1) * size]))
+            for size in (4, 2, 1):
+                out.append(without(ids[:size]))
+                out.append(without(ids[-size:]))
+        elif n > 1:
+            for i in ids:
+                out.append(without([i]))
+        if len(w) <= 120:
+            for i in range(5, len(w)):
+                out.append(" ".join(w[:i] + w[i + 1:]))
         if len(w) > 2 and w[2] != "g0":
             out.append(" ".join(w[:2] + ["g0"] + w[3:]))
         return out
